@@ -512,7 +512,26 @@ def rf32(run):
             run.ob(rule, (site, c), ok, {'site': site, 'opcode': c, 'test evaluates to': v, 'required': int(want)})
             if not ok:
                 if v is None:
-                    raise F.AnalysisBroken('%s: the test is not decided by the opcode alone for %s' % (site, c))
+                    # which sub-expressions are undecided?  tests on operands cannot protect an opcode in general; an opaque call might
+                    atoms = []
+
+                    def collect(e):
+                        e = F.strip(e)
+                        if preds.eval(e, env, frozenset()) is not None:
+                            return
+                        if e['k'] == 'BinaryOperator' and e['op'] in ('&&', '||'):
+                            collect(e['c'][0]); collect(e['c'][1])
+                        elif e['k'] == 'UnaryOperator' and e['op'] == '!':
+                            collect(e['c'][0])
+                        elif preds.eval(e, env, frozenset()) is None:
+                            atoms.append(e)
+                    collect(expr)
+                    if any(y['k'] == 'CallExpr' for a_ in atoms for y in F.walk(a_)):
+                        raise F.AnalysisBroken('%s: the test for %s depends on %s which the evaluator cannot decide'
+                                               % (site, c, [F.src(a_)[:40] for a_ in atoms]))
+                    run.violation(rule, f, '%s for %s' % (site, c), '%s: %s is protected only when %s; %s'
+                                  % (f.name, c, ' / '.join(F.src(a_)[:50] for a_ in atoms), what), line=expr['l'])
+                    continue
                 run.violation(rule, f, '%s for %s' % (site, c), '%s: %s %s' % (f.name, c, what), line=expr['l'])
     # (a) ssa_dead_insn_p
     f = gen.func('ssa_dead_insn_p')
